@@ -1,0 +1,77 @@
+//go:build verif
+
+// Contracts for package pubsub (comment-only; read by /verif/govc, never compiled into olric).
+//
+// The subscription tree (tidwall/btree) is seen as a ghost set of entries; Ascend is an iterating method
+// (assumed contract): it calls the function it is given on members of the set, each at most once, until the
+// function returns false or the members at or after the pivot are exhausted. The ORDER in which Ascend yields
+// (by pattern flag, channel, connection id) is not modelled; what is decided here is what Publish does with the
+// entries it is handed.
+
+package pubsub
+
+//@ import btree "github.com/tidwall/btree"
+//@ import pubsub "github.com/olric-data/olric/internal/pubsub"
+//@ ghost field btree.BTree.items set[*pubSubEntry]
+
+//@ extern func (tr *btree.BTree) Ascend(pivot interface{}, iter func(item interface{}) bool)
+//@   flag iterates
+//@   requires #tree: tr != nil
+//@   yields #member: arg0 != nil && hasptrtype(arg0, pubsub.pubSubEntry) && tr.items[arg0]
+//@   modifies nothing
+
+// Well-formed subscription state: every entry in the tree belongs to a connection with a detached connection.
+//@ pred (ps *PubSub) wf() = ps != nil && (ps.initd ==> ps.chans != nil && forall x *pubSubEntry :: ps.chans.items[x] ==> x != nil && allocated(x) && x.sconn != nil && x.sconn.dconn != nil)
+
+// deliveries (ghost) counts the messages written to subscriber connections (assumed to stay below 2^62, so that the
+// int counter in Publish cannot wrap). A pmessage is only ever written for a
+// pattern that matches the channel.
+//@ ghost var deliveries int
+
+//@ func (sconn *pubSubConn) writeMessage(pat bool, pchan string, channel string, msg string)
+//@   props C14
+//@   trusted
+//@   requires #conn: sconn != nil && sconn.dconn != nil
+//@   requires #pattern_matches [C14]: pat ==> uf(glob_match, Bool, channel, pchan)
+//@   ensures #delivered: deliveries == old(deliveries) + 1
+//@   ensures #bounded: deliveries <= 4611686018427387904
+//@   modifies deliveries
+
+// PUBLISH: the number returned equals the number of messages delivered; exact subscriptions are served only for
+// this channel, pattern subscriptions only when the pattern matches.
+//@ func (ps *PubSub) Publish(channel string, message string) int
+//@   props C14
+//@   flag termination
+//@   requires #wf: ps.wf()
+//@   requires #ghost_counter: 0 <= deliveries && deliveries <= 4611686018427387904
+//@   ensures #count_is_deliveries [C14]: result == deliveries - old(deliveries)
+//@   ensures #counter_range: old(deliveries) <= deliveries && deliveries <= 4611686018427387904
+//@   ensures #not_initialised: !ps.initd ==> result == 0
+//@   loop 0 invariant #exact: sent == deliveries - old(deliveries) && sent >= 0 && deliveries <= 4611686018427387904 && old(deliveries) >= 0 && ps.wf() && ps.initd
+//@   loop 0 invariant #temporaries0: onlyfresh()
+//@   loop 1 invariant #patterns: sent == deliveries - old(deliveries) && sent >= 0 && deliveries <= 4611686018427387904 && old(deliveries) >= 0 && ps.wf() && ps.initd
+//@   loop 1 invariant #temporaries1: onlyfresh()
+//@   modifies deliveries
+
+// PUBLISH through a member: the reply is the number of local deliveries plus what every other member reported.
+//@ func (s *Service) publishCommandHandler(conn redcon.Conn, cmd redcon.Command)
+//@   props C14 C16
+//@   flag termination
+//@   flag wired 2
+//@   requires #args: len(cmd.Args) >= 1
+//@   requires #wf: s.pubsub.wf() && 0 <= deliveries && deliveries <= 4611686018427387904 && 0 <= remote_published && remote_published <= 4611686018427387904
+//@   ensures #reply_is_the_sum [C14] internal: total == (deliveries - old(deliveries)) + (remote_published - old(remote_published)) &&
+//@                (conn.replied_int == total || conn.replied_int == old(conn.replied_int))
+//@   loop 0 invariant #sum: total == (deliveries - old(deliveries)) + (remote_published - old(remote_published)) && s.pubsub.wf() &&
+//@                0 <= old(deliveries) && old(deliveries) <= deliveries && deliveries <= 4611686018427387904 &&
+//@                0 <= old(remote_published) && old(remote_published) <= remote_published && remote_published - old(remote_published) <= (rangeindex + 1) * 1099511627776 &&
+//@                -1 <= rangeindex && rangeindex < 65536
+
+// PUBLISH forwarded by another member: the reply is the number of local deliveries.
+//@ func (s *Service) publishInternalCommandHandler(conn redcon.Conn, cmd redcon.Command)
+//@   props C14 C16
+//@   flag termination
+//@   flag wired 2
+//@   requires #args: len(cmd.Args) >= 1
+//@   requires #wf: s.pubsub.wf() && 0 <= deliveries && deliveries <= 4611686018427387904
+//@   ensures #reply_is_local_deliveries [C14] internal: conn.replied_int == deliveries - old(deliveries) && count == deliveries - old(deliveries)
